@@ -5,6 +5,7 @@ from env import Ob
 from guards import block_facts, unref
 from terms import fmt, subterms
 from roles import place_path
+from facts import adt_of
 
 SELF_DISPATCH = {"next_id_and_value": "fetch_one", "next_chunk": "fetch_n", "skip_to_end": "early_exit"}
 MAPPERS = ("Option::cloned", "Option::copied", "Iterator::cloned", "Iterator::copied")
@@ -648,3 +649,149 @@ def rule_cfgdiff(env, shared):
 
 
 rule_cfgdiff.once = True
+
+
+# ---------------------------------------------------------------------------------------------------
+def rule_wrap(env, shared):
+    """WRAP: the thin layers above the pulls neither lose nor relabel anything: the default `next()` is
+    `next_id_and_value().map(|x| x.value)`; the `values()` / `ids_and_values()` iterators call exactly that / map the same Next
+    to (idx, value) in this order; `values()`/`ids_and_values()` wrap `self`; constructors store the very collection they are
+    given and start the position counter at zero."""
+    from terms import Evaluator, Ctx
+    out = []
+    R, F = env.R, env.F
+    ev0 = Evaluator(F, inline=False)
+
+    def direct(b):
+        return unref(ev0.local(Ctx(b, stack=(b.def_,)), 0)), Ctx(b, stack=(b.def_,))
+
+    # default next()
+    d = F.trait_default(R.T_CON, "next")
+    k = "WRAP|ConcurrentIter::next"
+    if d is None:
+        out.append(Ob("WRAP", k, "viol", "-", "default next() not found"))
+    else:
+        b = F.bodies[d]
+        t, ctx = direct(b)
+        good = False
+        if t[0] == "call" and t[1] == "Option::map" and len(t[2]) == 2:
+            recv, clo = unref(t[2][0]), unref(t[2][1])
+            if recv[0] == "ret" and recv[1] == R.T_CON + "::next_id_and_value" and unref(recv[2][0]) in (
+                    ("param", 1), ("deref", ("param", 1))) and clo[0] == "agg" and clo[1].startswith("closure:"):
+                cb = F.bodies.get(clo[1][len("closure:"):])
+                if cb is not None:
+                    ct = unref(ev0.local(Ctx(cb, stack=(cb.def_,)), 0))
+                    good = ct[0] == "field" and ct[2] == 1 and ct[1] == ("param", 2)
+        out.append(Ob("WRAP", k, "ok" if good else "viol", b.file_line(),
+                      "next() = next_id_and_value().map(|x| x.value)" if good else
+                      "the default next() is not next_id_and_value().map(|x| x.value): %s" % fmt(t)[:120], True))
+        for adt, r in R.impl.items():
+            i = F.trait_impls.get((R.T_CON, adt))
+            okk = bool(i) and i["items"].get("next") == "default"
+            out.append(Ob("WRAP", k + "|not-overridden|" + r["name"], "ok" if okk else "viol", "-",
+                          "%s uses the default next()" % r["name"] if okk else "%s overrides next()" % r["name"]))
+    # wrapper iterators: local ADTs implementing std Iterator whose only field is a reference to a ConcurrentIter
+    n = 0
+    for i in F.impls_of_trait.get("std::iter::Iterator", []):
+        adt = adt_of(i["self_ty"])
+        a = F.adts.get(adt) if adt else None
+        if a is None:
+            continue
+        fs = a["variants"][0]["fields"]
+        if len(fs) != 1 or fs[0]["ty"].get("k") != "ref" or not any(
+                (R.T_CON.split("::")[-1]) in p for p in a.get("predicates", [])):
+            continue
+        m = i["items"].get("next")
+        if not isinstance(m, dict) or m["def"] not in F.bodies:
+            continue
+        n += 1
+        b = F.bodies[m["def"]]
+        t, ctx = direct(b)
+        k = "WRAP|%s::next" % a["name"]
+        good = False
+        what = ""
+
+        def is_inner(x):
+            x = unref(x)
+            while x[0] == "deref":
+                x = unref(x[1])
+            return x[0] == "field" and x[2] == 0 and unref(x[1]) in (("param", 1), ("deref", ("param", 1)))
+        if t[0] == "ret" and t[1] == R.T_CON + "::next" and is_inner(t[2][0]):
+            good, what = True, "forwards to next()"
+        elif t[0] == "call" and t[1] == "Option::map" and len(t[2]) == 2:
+            recv, clo = unref(t[2][0]), unref(t[2][1])
+            if recv[0] == "ret" and recv[1] == R.T_CON + "::next_id_and_value" and is_inner(recv[2][0]) \
+                    and clo[0] == "agg" and clo[1].startswith("closure:"):
+                cb = F.bodies.get(clo[1][len("closure:"):])
+                if cb is not None:
+                    ct = unref(ev0.local(Ctx(cb, stack=(cb.def_,)), 0))
+                    if ct[0] == "agg" and ct[1] == "tuple" and len(ct[2]) == 2:
+                        x0, x1 = unref(ct[2][0]), unref(ct[2][1])
+                        if x0[0] == "field" and x0[2] == 0 and x0[1] == ("param", 2) and x1[0] == "field" and x1[2] == 1 \
+                                and x1[1] == ("param", 2):
+                            good, what = True, "maps the same Next to (idx, value)"
+        out.append(Ob("WRAP", k, "ok" if good else "viol", b.file_line(),
+                      what if good else "%s::next does not hand on exactly what the pull returned: %s" % (a["name"], fmt(t)[:140]),
+                      True))
+    if n < 2:
+        out.append(Ob("WRAP", "WRAP|wrappers", "viol", "-", "only %d wrapper iterators found (anchor lost)" % n))
+    # values() / ids_and_values() wrap self
+    for nm in ("values", "ids_and_values"):
+        d = F.trait_default(R.T_CON, nm)
+        k = "WRAP|ConcurrentIter::%s" % nm
+        if d is None:
+            out.append(Ob("WRAP", k, "viol", "-", "default %s() not found" % nm))
+            continue
+        b = F.bodies[d]
+        t = unref(env.ev.local(env.ctx(b, None, None), 0))
+        good = t[0] == "agg" and len(t[2]) == 1 and unref(t[2][0]) in (("param", 1), ("deref", ("param", 1)))
+        if not good and t[0] == "call" and t[1] == "conv" and unref(t[2][0]) in (("param", 1), ("deref", ("param", 1))):
+            # `self.into()`: judged on the From impl of the returned wrapper type
+            rty = adt_of((b.info or {}).get("output") or {})
+            for i in F.impls_of_trait.get("std::convert::From", []):
+                if adt_of(i["self_ty"]) == rty:
+                    mm = i["items"].get("from")
+                    if isinstance(mm, dict) and mm["def"] in F.bodies:
+                        fb = F.bodies[mm["def"]]
+                        ft = unref(env.ev.local(env.ctx(fb, rty, None), 0))
+                        good = ft[0] == "agg" and len(ft[2]) == 1 and unref(ft[2][0]) == ("param", 1)
+        out.append(Ob("WRAP", k, "ok" if good else "viol", b.file_line(),
+                      "%s() wraps self" % nm if good else "%s() does not wrap the iterator itself: %s" % (nm, fmt(t)[:100]), True))
+    # constructors: the stored collection is the argument, the counter starts at 0
+    for adt, r in R.impl.items():
+        if r["kind"] == "adaptor":
+            continue
+        ctors = [b for b in F.non_test_bodies() if F.impl_self_adt(b) == adt and not b.is_closure and b.name == "new"
+                 and (b.info or {}).get("container") == "inherent"]
+        k = "WRAP|%s::new" % r["name"]
+        if not ctors:
+            out.append(Ob("WRAP", k, "viol", "-", "constructor of %s not found" % r["name"]))
+            continue
+        b = ctors[0]
+        t = unref(env.ev.local(env.ctx(b, adt, None), 0))
+        good = False
+        why = fmt(t)[:140]
+        if t[0] == "agg" and t[1].startswith(adt):
+            pos = r.get("pos")
+            stores = [i for i in range(len(t[2])) if i != pos and ("param", 1) in list(subterms(t[2][i]))]
+            # every occurrence of the argument in the stored field is behind identity-like wrappers only
+            plain = True
+            for i in stores:
+                for x in subterms(t[2][i]):
+                    if x[0] in ("ret",) or (x[0] == "call" and x[1] not in ("conv", "ManuallyDrop::new", "UnsafeCell::new", "len",
+                                                                              "Iterator::size_hint")):
+                        if ("param", 1) in list(subterms(x)) and not (x[0] == "ret" and "size_hint" in x[1]):
+                            plain = False
+            zero = pos is not None and any(x == ("int", 0) for x in subterms(t[2][pos])) and not any(
+                x[0] == "int" and x[1] != 0 for x in subterms(t[2][pos]))
+            ctr_ok = zero
+            if pos is not None and not zero:
+                # AtomicCounter::new() evaluated through the counter type's constructor
+                ctr_ok = "conv(0)" in fmt(t[2][pos]) or fmt(t[2][pos]).endswith("{conv(0)}")
+            good = bool(stores) and plain and ctr_ok
+            why = "stores=%s plain=%s counter starts at 0=%s" % (stores, plain, ctr_ok)
+        out.append(Ob("WRAP", k, "ok" if good else "viol", b.file_line(),
+                      "stores the given collection unchanged, counter starts at 0" if good else
+                      "the constructor of %s does not store its argument unchanged with the counter at 0 (%s)" % (r["name"], why),
+                      True))
+    return out
